@@ -67,17 +67,34 @@ Definition import_entries (fs : fileset) (i : simport) : list sentry :=
     map (fun m => mkEntry (i_alias i) (m_name m) (i_path i) false m) ms
   end.
 
-(* the scope of the file at path p; child = the file that extends it (dummy import with the identifier ".") *)
-Definition scope_of (fs : fileset) (p : N) (child : option N) (imported : bool) : list sentry :=
+(* the scope of the file at path p: its own macros, then what its imports make visible, in order *)
+Definition scope_of (fs : fileset) (p : N) (imported : bool) : list sentry :=
   match get_file fs p with
   | None => []
-  | Some f =>
-    own_entries p f imported
-    ++ flat_map (import_entries fs) (f_imports f)
-    ++ match child with
-       | None => []
-       | Some c => import_entries fs (mkImport c None None)
-       end
+  | Some f => own_entries p f imported ++ flat_map (import_entries fs) (f_imports f)
+  end.
+
+(* checker.go, typecheck: a file that extends a layout is transformed by
+   swapping the files: the layout becomes the file that is compiled and gets,
+   in front, a dummy import of the extending file with the identifier "."
+   (all its declarations, unqualified) *)
+Fixpoint set_file (fs : fileset) (p : N) (f : sfile) : fileset :=
+  match fs with
+  | [] => []
+  | (q, g) :: r => if q =? p then (q, f) :: r else (q, g) :: set_file r p f
+  end.
+
+Definition swap_extends (fs : fileset) (p l : N) : option fileset :=
+  match get_file fs p, get_file fs l with
+  | Some f, Some lf =>
+    match f_extends lf, f_body f with
+    | None, [] =>
+      let f' := mkFile (f_fmt f) None (f_imports f) (f_macros f) (f_rec f) [] in
+      let lf' := mkFile (f_fmt lf) None (mkImport p None None :: f_imports lf) (f_macros lf) (f_rec lf) (f_body lf) in
+      Some (set_file (set_file fs p f') l lf')
+    | _, _ => None      (* chains of extends and text in an extending file are outside the calculus *)
+    end
+  | _, _ => None
   end.
 
 Definition opt_eqb (a b : option N) : bool :=
@@ -131,7 +148,7 @@ Section Lower.
           match lookup sc alias name, args_ids params args with
           | Some en, Some ids =>
             if Nat.eqb (length ids) (m_nparams (e_macro en)) then
-              match lower_nodes fuel' (scope_of fs (e_file en) None (negb (e_local en))) ids (m_body (e_macro en)) with
+              match lower_nodes fuel' (scope_of fs (e_file en) (negb (e_local en))) ids (m_body (e_macro en)) with
               | Some body =>
                 let cap := e_local en && match get_file fs (e_file en) with
                                          | Some g => captured g (e_name en)
@@ -149,7 +166,7 @@ Section Lower.
             match f_extends f with
             | Some _ => None
             | None =>
-              match lower_nodes fuel' (scope_of fs p None false) [] (f_body f) with
+              match lower_nodes fuel' (scope_of fs p false) [] (f_body f) with
               | Some body => Some (Some (TFunc (f_fmt f) (f_rec f) body, false))
               | None => None
               end
@@ -193,34 +210,36 @@ Section Lower.
       end
     end.
 
-  (* the main function of the template built from the file at path p *)
-  Definition lower_main (fuel : nat) (p : N) : option tfunc :=
+  (* the main function of the template built from a file without extends *)
+  Definition lower_plain (fuel : nat) (p : N) : option tfunc :=
     match get_file fs p with
     | None => None
     | Some f =>
       match f_extends f with
       | None =>
-        match lower_nodes fuel (scope_of fs p None false) [] (f_body f) with
+        match lower_nodes fuel (scope_of fs p false) [] (f_body f) with
         | Some body => Some (TFunc (f_fmt f) (f_rec f) body)
         | None => None
         end
-      | Some l =>
-        (* the layout l becomes the main file and imports p *)
-        match get_file fs l with
-        | None => None
-        | Some lf =>
-          match f_extends lf, f_body f with
-          | None, [] =>
-            match lower_nodes fuel (scope_of fs l (Some p) false) [] (f_body lf) with
-            | Some body => Some (TFunc (f_fmt lf) (f_rec lf) body)
-            | None => None
-            end
-          | _, _ => None    (* chains of extends and text in an extending file are outside the calculus *)
-          end
-        end
+      | Some _ => None
       end
     end.
 End Lower.
+
+(* the main function of the template built from the file at path p *)
+Definition lower_main (vals : N -> N -> shown) (fs : fileset) (fuel : nat) (p : N) : option tfunc :=
+  match get_file fs p with
+  | None => None
+  | Some f =>
+    match f_extends f with
+    | None => lower_plain vals fs fuel p
+    | Some l =>
+      match swap_extends fs p l with
+      | Some fs' => lower_plain vals fs' fuel l
+      | None => None
+      end
+    end
+  end.
 
 (* ---------------------------------------------------------------- showing a rendered string *)
 
